@@ -200,7 +200,7 @@ fn domain17(s: &Spec17) -> Dom {
 }
 
 fn small_audio(channels: usize, bps: usize, rate: usize, len: usize, seed: u64) -> Arc<Audio> {
-    let mut rng = Rng::for_case(seed, "C17.audio", (channels * 1000 + bps) as u64);
+    let mut rng = Rng::for_case(seed, "C17.audio", channels.wrapping_mul(1000).wrapping_add(bps) as u64);
     let b = bps.clamp(4, 24);
     Arc::new(gen::gen_audio_family(&mut rng, channels.clamp(1, 8), b, rate, len, "sine_noise"))
 }
@@ -456,6 +456,11 @@ pub fn child17(idx: u64) -> Value {
 pub fn child18(seed: u64, idx: u64) -> Value {
     let mut rng = Rng::for_case(seed, "C18", idx);
     let which = idx % 10;
+    // a third of the scenarios run right after failed writes on this thread: "serialises to exactly
+    // the bits it reports and parses back" must not depend on what was written before
+    if idx % 3 == 1 {
+        crate::poison::failing_writes(&mut Rng::for_case(seed, "poison", idx));
+    }
     let mut viol: Vec<(String, String)> = vec![];
     let mut accepted = false;
     let mut desc = String::new();
@@ -790,6 +795,7 @@ fn supervise_grid(ctx: &Ctx, sub: &str, n: u64, out: &Arc<Mutex<Outcome>>, on_re
                         ScenarioEnd::Deadlock { detail, .. } => g.violation(format!("{}|hang|{}", ctx.prop, describe(idx).split('(').next().unwrap_or("?")), format!("{}: call did not return: {detail}", describe(idx)), rp),
                         ScenarioEnd::Died(d) => g.violation(format!("{}|process-died|{}", ctx.prop, describe(idx).split('(').next().unwrap_or("?")), format!("{}: {d}", describe(idx)), rp),
                         ScenarioEnd::Watchdog => g.inconclusive.push(format!("watchdog fired in {sub}#{idx}")),
+                        ScenarioEnd::HarnessError(d) => g.inconclusive.push(format!("harness error in {sub}#{idx}: {d}")),
                     }
                 });
             });
